@@ -95,15 +95,26 @@ func VerifH_C11_superblock() {
 }
 
 // object header v2: WriteTo -> ReadObjectHeader, <=3 messages of symbolic type (from a set) and symbolic data (1..6 bytes)
-func VerifH_C11_objectheader_v2() {
+func VerifH_C11_objectheader_v2() { verifObjectHeaderPair(2) }
+
+// version 1 (written for superblock v0 files): messages are 8-byte aligned, lengths 1..9 cross the padding boundary
+func VerifH_C11_objectheader_v1() { verifObjectHeaderPair(1) }
+
+func verifObjectHeaderPair(version uint8) {
 	n := 1 + vrt.Choice(2)
 	if vrt.Thorough() {
 		n = 1 + vrt.Choice(3)
 	}
-	ohw := &ObjectHeaderWriter{Version: 2, Flags: 0}
+	ohw := &ObjectHeaderWriter{Version: version, Flags: 0, RefCount: 1}
 	types := []MessageType{MsgDataspace, MsgDatatype, MsgAttribute}
+	if version == 1 {
+		types = []MessageType{MsgDataspace, MsgDatatype, MsgDataLayout} // (an attribute message would be parsed on read and fork on every data byte)
+	}
 	for i := 0; i < n; i++ {
 		l := 1 + vrt.Choice(4)
+		if version == 1 {
+			l = []int{1, 7, 8, 9}[vrt.Choice(4)]
+		}
 		ohw.Messages = append(ohw.Messages, MessageWriter{Type: types[vrt.Choice(len(types))], Data: vrt.Bytes(l)})
 	}
 	m := &verifMem{data: make([]byte, 512)}
@@ -112,12 +123,24 @@ func VerifH_C11_objectheader_v2() {
 	vrt.AssertNoErr(err, "objectheader-write-ok")
 	vrt.Assert(sz == ohw.Size(), "objectheader-size-equals-bytes-written")
 	sb := &Superblock{Version: 2, OffsetSize: 8, LengthSize: 8, Endianness: binary.LittleEndian}
+	if version == 1 {
+		sb.Version = 0
+	}
 	oh, err := ReadObjectHeader(m, addr, sb)
 	vrt.AssertNoErr(err, "objectheader-decode-accepts-encoded")
+	if err != nil {
+		return
+	}
 	vrt.Assert(len(oh.Messages) == n, "objectheader-message-count")
 	if len(oh.Messages) == n {
 		for i := range ohw.Messages {
 			vrt.Assert(oh.Messages[i].Type == ohw.Messages[i].Type, "objectheader-message-type")
+			if version == 1 {
+				// v1 message data is stored padded to 8 bytes and the size field covers the data as written
+				vrt.Assert(len(oh.Messages[i].Data) >= len(ohw.Messages[i].Data) &&
+					string(oh.Messages[i].Data[:len(ohw.Messages[i].Data)]) == string(ohw.Messages[i].Data), "objectheader-message-data")
+				continue
+			}
 			vrt.Assert(string(oh.Messages[i].Data) == string(ohw.Messages[i].Data), "objectheader-message-data")
 		}
 	}
@@ -270,3 +293,68 @@ func VerifH_C11_attribute() {
 	vrt.Assert(string(got.Data) == string(data), "attribute-data")
 	vrt.Covered("attribute-end")
 }
+
+// compound datatype (layout versions 1 and 3): 1..2 members (3 thorough), names of 1..8 bytes (7/8: the v1 padding boundary),
+// offsets symbolic, member types fixed-point / float of size 1..8 (flags symbolic), total size symbolic: the member
+// list decodes back exactly
+func verifCompoundPair(version int) {
+	maxM := 2
+	if vrt.Thorough() {
+		maxM = 3
+	}
+	nm := 1 + vrt.Choice(maxM)
+	pool := []string{"a", "xy", "seven_7", "eight__8", "nine____9"}
+	rot := vrt.Choice(len(pool))
+	fields := make([]CompoundFieldDef, nm)
+	for i := range fields {
+		sz := uint32(1) << uint(vrt.Choice(4))
+		cl := DatatypeFixed
+		props := []byte{0, 0, byte(8 * sz), 0}
+		if vrt.Bool() && sz >= 4 {
+			cl = DatatypeFloat
+			props = []byte{0, 0, byte(8 * sz), 0, 23, 8, 0, 23, 127, 0, 0, 0}
+		}
+		fields[i] = CompoundFieldDef{
+			Name:   pool[(i+rot)%len(pool)],
+			Offset: vrt.U32() & 0xFFFF,
+			Type:   &DatatypeMessage{Class: cl, Version: 1, Size: sz, ClassBitField: vrt.U32() & 0x0F, Properties: props},
+		}
+	}
+	total := 1 + vrt.U32()&0xFFFF
+	var buf []byte
+	var err error
+	if version == 1 {
+		buf, err = EncodeCompoundDatatypeV1(total, fields)
+	} else {
+		buf, err = EncodeCompoundDatatypeV3(total, fields)
+	}
+	if err != nil {
+		return // the encoder may refuse a combination; then there is nothing to invert
+	}
+	dt, err := ParseDatatypeMessage(buf)
+	vrt.AssertNoErr(err, "datatype-decode-accepts-encoded")
+	if err != nil {
+		return
+	}
+	vrt.Assert(dt.Class == DatatypeCompound && dt.Size == total, "compound-class-and-size")
+	ct, err := ParseCompoundType(dt)
+	vrt.AssertNoErr(err, "compound-decode-accepts-encoded")
+	if err != nil {
+		return
+	}
+	vrt.Assert(ct.Size == total, "compound-size")
+	vrt.Assert(len(ct.Members) == nm, "compound-member-count")
+	if len(ct.Members) == nm {
+		for i := range fields {
+			m := ct.Members[i]
+			vrt.Assert(m.Name == fields[i].Name, "compound-member-name")
+			vrt.Assert(m.Offset == fields[i].Offset, "compound-member-offset")
+			vrt.Assert(m.Type != nil && m.Type.Class == fields[i].Type.Class && m.Type.Size == fields[i].Type.Size &&
+				m.Type.ClassBitField == fields[i].Type.ClassBitField, "compound-member-type")
+		}
+	}
+	vrt.Covered("compound-end")
+}
+
+func VerifH_C11_compound_v1() { verifCompoundPair(1) }
+func VerifH_C11_compound_v3() { verifCompoundPair(3) }
